@@ -55,6 +55,15 @@ CHECKS = {
         note="Trusted: CPython, renderer, reference. Bounds: <=2 snapshots per level, <=3 levels.",
         technique="explicit exhaustive enumeration on the real code, reference-interpreter oracle; definition-time case table",
         design="3/C08"),
+    "C09": dict(
+        text="Exhaustive product: role (pre/post/invariant) x callable kind (incl. async, property setter, constructor) x error "
+             "form (none, Exception/BaseException class, instance, def/lambda factory, bound method, static/class method through "
+             "the class) x every subset of nameable values a factory may ask for (+ unknown name, non-exception return); each "
+             "case is a history violate/satisfy/violate/violate in one context; type, identity, args and factory calls are "
+             "compared with the statement. Invalid error kinds x the three decorators must raise ValueError at creation.",
+        note="Trusted: CPython, the harness. The generated message text is only checked for its frame here (C06/C07/C20 judge it).",
+        technique="explicit exhaustive enumeration of role x kind x error form x factory-parameter subsets, executed as 4-step histories on the real code",
+        design="3/C09"),
     "C16": dict(
         text="Exhaustive exploration of family F (all kinds, sync/async, plain/DBC chains of <=3 classes, own and inherited "
              "stacks of pre/post/snapshot/invariant, two decorator layouts, foreign functools.wraps decorators at top/middle/"
